@@ -102,6 +102,12 @@ def build_harness(log, race=False):
         t0 = time.time()
         rc, out = sh(cmd, cwd=HARNESS, env=env, timeout=900)
         log("go build%s: rc=%d %.1fs" % (" -race" if race else "", rc, time.time() - t0))
+        if rc == 0 and not race:
+            # the daemon itself with the package-main probe (shortID / ClientInfo), for the clientinfo engine
+            rc2, out2 = sh(["go", "build", "-tags", "verif", "-overlay", overlay, "-o", os.path.join(BUILD, "nextdns-probe"), "."],
+                           cwd=REPO, env=dict(GOENV), timeout=900)
+            if rc2 != 0:
+                return False, out + out2, out_path
         return rc == 0, out, out_path
 
 
